@@ -90,6 +90,7 @@ func Load(whole bool, rel ...string) (*Program, error) {
 				}
 				return true
 			})
+			canonicalise(pkg.TypesInfo, f)
 		}
 	}
 	if len(errs) > 0 {
@@ -351,4 +352,36 @@ func (f *Func) Use() LitUse {
 		return LitUse{Kind: "other"}
 	}
 	return UseOfLit(f.Info(), f.Parent.Body, f.Lit)
+}
+
+// canonicalise rewrites, in place, spellings that differ only in operand order so that the
+// rules see one form: a comparison with a constant (or nil) on the left and a non-constant on
+// the right is turned round (`0 == x` → `x == 0`, `-1 != seed` → `seed != -1`, `0 < n` →
+// `n > 0`). The type information of the operands is keyed by their own nodes and stays valid.
+func canonicalise(info *types.Info, f *ast.File) {
+	isConst := func(e ast.Expr) bool {
+		tv, ok := info.Types[e]
+		return ok && (tv.Value != nil || tv.IsNil())
+	}
+	ast.Inspect(f, func(n ast.Node) bool {
+		be, ok := n.(*ast.BinaryExpr)
+		if !ok || !isConst(be.X) || isConst(be.Y) {
+			return true
+		}
+		switch be.Op {
+		case token.EQL, token.NEQ:
+		case token.LSS:
+			be.Op = token.GTR
+		case token.GTR:
+			be.Op = token.LSS
+		case token.LEQ:
+			be.Op = token.GEQ
+		case token.GEQ:
+			be.Op = token.LEQ
+		default:
+			return true
+		}
+		be.X, be.Y = be.Y, be.X
+		return true
+	})
 }
